@@ -13,7 +13,7 @@ RULE = ("Union of the mailbox-world generators restricted to LEGAL application b
         "method before close(); input-helper calls in any order; send/derive_key/get_*/close at any time incl. "
         "from inside delegate callbacks and twice) against conformant-server behaviours (any interleaving, "
         "`message` dup/reorder, multi-message chunks incl. the rest of a chunk after an internal stop, a crowding "
-        "third participant, injected `error`, welcome error/motd, refused first connection, 0-4 losses). Oracle: "
+        "third participant, injected `error`, welcome error/motd, refused first connection, 0-4 losses, failed WebSocket negotiations on reconnect). Oracle: "
         "no exception other than a documented WormholeError escapes an API call; nothing escapes a ws_* entry "
         "point; no error is logged whose innermost frame is under wormhole/ (NoTransition, AssertionError, ...); "
         "the closed verdict is 'happy' or a WormholeError. Non-trivial = the case reached a (machine,state,input) "
@@ -72,6 +72,7 @@ def cases(draw, tier="quick"):
     P["extra_ops"] = draw(st.lists(st.tuples(st.integers(0, 1), st.sampled_from(XOPS)).map(list), max_size=4))
     P["gets"] = draw(st.sampled_from(["early", "tape", "late"]))
     P["input_refresh"] = draw(st.booleans())
+    P["hs_fail"] = draw(st.sampled_from([[0, 0], [0, 0], [1, 0], [0, 1], [1, 2]]))
     n = draw(st.integers(0, 240))
     P["tape"] = draw(st.binary(min_size=n, max_size=n))
     return P
